@@ -67,7 +67,7 @@ def _spec_hash(u: Universe):
 
 def load(name, *, refresh=False) -> SpecTables:
     u = Universe(name)
-    tdir = os.path.join(tlc.BUILD, "tables")
+    tdir = tlc.TABLES
     os.makedirs(tdir, exist_ok=True)
     path = os.path.join(tdir, "%s.%s.json" % (name, _spec_hash(u)))
     if refresh or not os.path.exists(path):
